@@ -191,7 +191,7 @@ func (s *lenSummaries) bounds(h *ssa.Function, i int, max int64) bool {
 	cut := mkCut(okE)
 	ei := errorResultIndex(h.Signature)
 	for _, ret := range returnsOf(h) {
-		if ei < len(ret.Results) && (definitelyNonNilError(ret.Results[ei]) || nonNilByGuard(h, ret, ret.Results[ei])) {
+		if ei < len(ret.Results) && (definitelyNonNilError(retVal(ret, ei)) || nonNilByGuard(h, ret, retVal(ret, ei))) {
 			continue
 		}
 		if _, reach := reachAfter(h, nil, ret, cut, nil); reach {
